@@ -45,7 +45,8 @@ const REENTRANT_KNOWN = [
 ]
 
 // ---- collision sweep ----------------------------------------------------------------------------------
-const RES = ['__datadog_test_0', '__datadog_test_1', '__datadog_test_12']
+// (the last four spell reserved names with identifier escapes: same identifier, different source text)
+const RES = ['__datadog_test_0', '__datadog_test_1', '__datadog_test_12', '__datadog_t\\u0065st_0', '\\u005f_datadog_test_1', '__d\\u{61}tadog_test_0', '__datadog_test_\\u0030']
 const NEAR = ['__datadog_other_0', '__datadog_testx', '__datadog_test', '___datadog_test_0', '__datadog_TEST_0']
 const COLLISION = [
   ['binding-same-block', n => `function f(a, b) { let ${n} = w.s1; const r = a + b(); return r + ${n} }\nreturn f(w.s2, w.f3);`],
